@@ -41,6 +41,7 @@ func main() {
 	workers := flag.Int("workers", 8, "parallel workers")
 	solver := flag.String("solver", "z3-new", "z3 | z3-new | cvc5")
 	to := flag.Int("timeout", 20, "solver timeout per query (s)")
+	noSlice := flag.Bool("noslice", false, "disable constraint-independence slicing of feasibility queries")
 	incTO := flag.Int("inctimeout", 4, "timeout (s) of the incremental solver before a fresh non-incremental process is tried")
 	maxPaths := flag.Int("maxpaths", 200000, "global path budget")
 	maxSteps := flag.Int("maxsteps", 2000000, "per-path step budget")
@@ -125,7 +126,7 @@ func main() {
 		}
 		t1 := time.Now()
 		c := interp.Config{MaxObjBytes: 1 << 22, MaxSteps: *maxSteps, MaxPaths: *maxPaths, MaxDepth: *maxDepth,
-			SolverKind: *solver, SolverTO: *to, Workers: *workers, Seed: *seed, Verbose: *verbose, Tier: *tier, CexSamples: *cexSamples, IncTO: *incTO}
+			SolverKind: *solver, SolverTO: *to, Workers: *workers, Seed: *seed, Verbose: *verbose, Tier: *tier, CexSamples: *cexSamples, IncTO: *incTO, NoSlice: *noSlice}
 		if *budgetS > 0 {
 			c.Deadline = time.Now().Add(time.Duration(*budgetS) * time.Second)
 		}
@@ -190,7 +191,7 @@ func main() {
 			"paths": st.Paths, "paths_ok": st.PathsOK, "steps": st.Steps, "queries": st.Queries, "solver_s": st.SolverS,
 			"unknowns": st.Unknowns, "forks": st.Forks, "max_pc": st.MaxPC, "obligations": st.Obligations,
 			"discharged": st.Discharged, "obligation_kinds": obs, "reach": st.Reach, "funcs": funcs,
-			"solver_errors": st.SolverErrors, "folded_asserts": st.FoldedAsserts, "paths_symbolic": st.PathsSymbolic, "portfolio_queries": st.AltQueries, "portfolio_decided": st.AltDecided, "load_s": loadS, "solver": *solver,
+			"solver_errors": st.SolverErrors, "folded_asserts": st.FoldedAsserts, "paths_symbolic": st.PathsSymbolic, "portfolio_queries": st.AltQueries, "portfolio_decided": st.AltDecided, "sliced_queries": st.Sliced, "load_s": loadS, "solver": *solver,
 		}
 		results = append(results, res)
 		if *verbose > 0 {
